@@ -4,6 +4,7 @@ import (
 	"github.com/openconfig/gribigo/compliance"
 
 	"context"
+	"io"
 	"sync"
 	"time"
 
@@ -24,6 +25,10 @@ type proxy struct {
 	onGet  func(resps []*spb.GetResponse) []*spb.GetResponse
 	// onFlush may rewrite the request or answer directly.
 	onFlush func(in *spb.FlushRequest) (*spb.FlushRequest, *spb.FlushResponse)
+
+	// eofDelay: the server learns of a client's half-close this much later (a conformant
+	// server that is slow to tear a session down).
+	eofDelay time.Duration
 
 	mu       sync.Mutex
 	sessions []*sessState
@@ -48,6 +53,10 @@ func (w *wrapStream) Recv() (*spb.ModifyRequest, error) {
 	for {
 		in, err := w.GRIBI_ModifyServer.Recv()
 		if err != nil {
+			if err == io.EOF && w.st.p.eofDelay > 0 {
+				// a server that takes its time to act on the client's half-close
+				time.Sleep(w.st.p.eofDelay)
+			}
 			return nil, err
 		}
 		w.st.nReq++
@@ -362,6 +371,27 @@ var faults = []fault{
 		},
 		expect:  []string{"Flush of all entries in default NI by elected master", "Flush from client overriding election is honoured", "Flush to specific network instance is honoured"},
 		control: []string{"Flush from non-elected master returns error", "Flush without specifying network instance returns error", "Modify RPC connection"},
+	},
+	{
+		name: "ignores-flush-of-a-named-instance", what: "answers a Flush that names one network instance with OK without removing anything (a Flush of all instances is honoured)",
+		wrap: func(in *server.Server) spb.GRIBIServer {
+			p := &proxy{inner: in}
+			p.onFlush = func(req *spb.FlushRequest) (*spb.FlushRequest, *spb.FlushResponse) {
+				if _, ok := req.GetNetworkInstance().(*spb.FlushRequest_Name); !ok {
+					return req, nil
+				}
+				if req.GetOverride() != nil || req.GetId() != nil {
+					// still let the election checks of the real server reject what must be rejected
+					if _, err := in.Flush(context.Background(), &spb.FlushRequest{Election: req.Election, NetworkInstance: &spb.FlushRequest_Name{Name: "no-such-network-instance-for-probe"}}); err != nil && !isInvalidNI(err) {
+						return req, nil
+					}
+				}
+				return nil, &spb.FlushResponse{Result: spb.FlushResponse_OK}
+			}
+			return p
+		},
+		expect:  []string{"Flush to specific network instance is honoured"},
+		control: []string{"Flush of all entries in default NI by elected master", "Flush from client overriding election is honoured", "Flush non-default network instances preserves the default", "Modify RPC connection"},
 	},
 	{
 		name: "flushes-every-instance-when-one-is-named", what: "empties all network instances when a Flush names a single one",
